@@ -49,7 +49,8 @@
 (*                  copy of node i (key -> token; "n:j" reference to the copy of node j,  *)
 (*                  "s:.." scalar, "P:path" patch value, "D:path" patch sub-dictionary),  *)
 (*                  nodes[i]["#"] = kind or "unreached"; ss[i] = number of calls of the   *)
-(*                  user's __setstate__ for node i                                        *)
+(*                  user's __setstate__ for node i; pres = "T" iff the patch dictionary   *)
+(*                  the caller passed is unchanged (all levels) after the call            *)
 (*      obs.fresh[k] the same loads() call executed on a fresh thread                     *)
 (*      obs.equal_to_pickle compares the LAST loads() call (no patches, no injected       *)
 (*                  failure; earlier calls of the sequence may have failed) with pickle   *)
@@ -154,6 +155,8 @@ K_Free(scn) == \E c \in OptNodes(scn) : c # 1 /\ Owner(scn, c)[1] = 0
 K_Stale(scn) == \E a \in OptNodes(scn) : scn.g[a].ds /\ \E j \in NamedKids(scn, a) :
                    Owner(scn, scn.g[a].ent[j].to) # <<a, j>>
 AnyPatch(scn) == \E k \in 1..Len(scn.loads) : scn.loads[k].patch # <<>>
+\* a dict patch two levels down (for the child of a child)
+K_DeepPatch(scn) == \E k \in 1..Len(scn.loads) : \E p \in Rng(scn.loads[k].patch) : Len(p) >= 3
 Known_C14(scn) == K_NoSetstate(scn) \/ K_Siblings(scn)
 Known_C15(scn) == K_NoSetstate(scn) \/ K_Siblings(scn) \/ (AnyPatch(scn) /\ (K_Free(scn) \/ K_Stale(scn)))
 \* remote=False goes through the same restore machinery for classes already registered as opt-in
@@ -223,4 +226,6 @@ C15_OnlyAddressed(r) == C15Applies(r) => \A k \in GoodLoads(r) :
 \* every loads call behaves as the same call on a fresh thread (after successes, failures, other threads)
 C15_Independent(r) == C15Applies(r) => \A k \in 1..Len(r.scn.loads) :
   r.obs.loads[k] = r.obs.fresh[k]
+\* ... and leaves no residue: whether it returns or raises, the patch dictionary of the caller (all levels) is what it was
+C15_NoResidue(r) == C15Applies(r) => \A k \in 1..Len(r.scn.loads) : r.obs.loads[k].pres = "T"
 =============================================================================
